@@ -145,15 +145,18 @@ def findControlConnection (id : ConnIdent) : Option ClientConn :=
 /-- `extractClientID(conn.Stream, netConn)`: the client id the transport object asserts (0 = none). -/
 def extractClientID (id : ConnIdent) : Nat := id.streamClientID
 
-/-- `handleExistingBridge`: success ack, then source (reconnect) or target by the *stream's* client id. -/
-def handleExistingBridge (w : World) (id : ConnIdent) (req : Req) : Outcome :=
-  ⟨.ok,
-   (if req.MappingID != "" then
-      match w.getPortMapping req.MappingID with
-      | some mapping => if extractClientID id == mapping.ListenClientID then .source else .target
-      | none => .target
-    else .target),
-   .switch⟩
+/-- the side decision of `handleExistingBridge`: source when the *stream's* client id is the mapping's listen client -/
+def existingBridgeIsSource (w : World) (id : ConnIdent) (req : Req) : Bool :=
+  if req.MappingID != "" then
+    match w.getPortMapping req.MappingID with
+    | some mapping => extractClientID id == mapping.ListenClientID
+    | none => false
+  else false
+
+/-- `handleExistingBridge`: success ack, then source (reconnect) or target.  `Bridge.SetTargetConnection` keeps an
+established target: when the bridge is already served the newcomer is not attached (it is closed). -/
+def handleExistingBridge (w : World) (id : ConnIdent) (req : Req) (served : Bool) : Outcome :=
+  ⟨.ok, (if existingBridgeIsSource w id req then .source else if served then .none else .target), .switch⟩
 
 /-- `isSourceClient` (the post-authorisation one in packet_handler_tunnel.go). -/
 def isSourceClient (w : World) (id : ConnIdent) (clientConn : ClientConn) (req : Req) : Bool :=
@@ -230,8 +233,8 @@ def openTunnelDyn (w : World) (id : ConnIdent) (req : Req) (ts : TunnelState) (l
     | some clientConn =>
       if !(handleTunnelOpenAuth w clientConn.clientID req) then refuse
       else match ts with
-        | .bridge mappingID _ =>
-          if mappingID != req.MappingID then refuse else handleExistingBridge w id req
+        | .bridge mappingID served =>
+          if mappingID != req.MappingID then refuse else handleExistingBridge w id req served
         | .remote mappingID node =>
           if mappingID != req.MappingID then refuse else processCrossNodeForward w node
         | .none =>
@@ -306,7 +309,7 @@ any credential check, for whatever connection names the tunnel id.  Kept to stat
 def openTunnelAsFound (w : World) (id : ConnIdent) (req : Req) (ts : TunnelState) : Outcome :=
   if !req.wellFormed then refuse
   else match ts with
-    | .bridge _ _ => handleExistingBridge w id req
+    | .bridge _ served => handleExistingBridge w id req served
     | .remote _ node => processCrossNodeForward w node
     | .none => openTunnel w id req .none
 
